@@ -26,7 +26,14 @@ from pathlib import Path
 from .. import common as C
 from ..common import Corr, Violation, clist, copt, cz
 
+TRANSLATORS = ['ids_funs']
+
 TRUSTED_BASE = [
+    'translator translate/ids_funs.py (fail-closed ast translation of ThreadTaskIdComposer, TaskAndThreadKeeper, '
+    'TaskOrThreadToTraceMapper, Repeater.on_start_trace/on_end_trace, current_task_or_thread and the counter constructors '
+    'into the syntax of Ids/Syntax.v -> Gen/IdsFuns.v) and the semantics given to that syntax by Ids/Interp.v '
+    '(weak containers as finite maps, counters as heap objects, hook calls dispatched through the regenerated @hookimpl table, '
+    'thread switches between the two counter calls of a trace start only); tied to Ids/Model.v by Ids/Tie.v (C06_tie_*)',
     'correspondence harness harness/props/c06.py (program generator, probe P, event stream -> label sequence)',
     'harness/child.py + child_worker.py (real nextline.spawned.main in-process with queue.Queue)',
     'ground truth = threading.current_thread().name / asyncio.current_task().get_name() printed by the probe (unique per object in CPython)',
